@@ -381,6 +381,9 @@ pub fn run_cred(u: &Value, strat: &Strat, cfg: &Cfg, sels: &[Map<String, Value>]
     l.evals += 1;
     let Some(cred) = issue_checked(u, strat, cfg, checks, prop, l) else { return };
     if !(checks.c01 || checks.c06) {
+        if !cred.h.is_empty() && cred.h.len() < refmodel::all_nodes(u).len() {
+            l.nontrivial += 1;
+        }
         return;
     }
     let mut dsets: BTreeSet<BTreeSet<Path>> = BTreeSet::new();
